@@ -109,6 +109,11 @@ func recacheAggregatorContext(ctx sdk.Context, agc *aggregator.AggregatorContext
 		p = recentParamsMap[prev]
 		agc.SetParams(p)
 		setCommonParams(p)
+		// nothing to replay (the validator set changed in the previous block, or this is the
+		// second block of the chain), but the rounds that are open at this height still have to
+		// be prepared, exactly as a node that kept running has them.
+		agc.PrepareRoundEndBlock(uint64(to - 1))
+		agc.CloseFinalizedRounds(func(tokenID uint64) uint64 { return k.GetNextRoundID(ctx, tokenID) })
 	} else {
 		prev := int64(0)
 		replayedNonce := make(map[string]int32)
